@@ -187,6 +187,20 @@ def register(cat, simple, binary, with_scalar, _perm, _dims_subset, gen_ttm, run
         if form == "subs":
             rows = [[c.g.randrange(d) for d in sh] for _ in range(2)]
             return {"operands": [r, c.fresh(np.array(rows, dtype=int))], "form": "subs"}
+        if getattr(s, "nnz", 0) and c.g.random() < 0.4:
+            # a region drawn around the stored entries (their bounding box, or the slice that holds all of them)
+            lo = np.asarray(s.subs).min(axis=0)
+            hi = np.asarray(s.subs).max(axis=0)
+            key = []
+            for d in range(len(sh)):
+                u = c.g.random()
+                if lo[d] == hi[d] and u < 0.4:
+                    key.append(int(lo[d]))
+                elif u < 0.8:
+                    key.append(enc(slice(int(lo[d]) if c.g.random() < 0.8 else None, int(hi[d]) + 1 if c.g.random() < 0.8 else None, None)))
+                else:
+                    key.append(enc(slice(None, None, None)))
+            return {"operands": [r], "form": "region", "key": key}
         key = [enc(slice(None, None, None)) if c.g.random() < 0.6 else c.g.randrange(d) for d in sh]
         return {"operands": [r], "form": "region", "key": key}
 
